@@ -3,6 +3,7 @@ import Poulpy.Lemmas.CoreOpsProg
 import Poulpy.Lemmas.CoreOpsNorm
 import Poulpy.Lemmas.CoreOpsShift
 import Poulpy.Lemmas.CoreOpsShift2
+import Poulpy.Lemmas.CoreOpsGgsw
 import Poulpy.Props.C08
 
 /-!
@@ -649,6 +650,49 @@ example : (∃ r', glweNormalize 2 exRes exA = .ok r') ∧ (∃ r', glweNormaliz
       (by intro c hc l hl x hx; have : |x| ≤ 8 := by revert x l c; decide
           exact this.trans (by norm_num))
     exact ⟨r', h⟩
+
+/-! ## GGSW operations (`operations/ggsw.rs`)
+
+A GGSW is `dnum` rows of `rank+1` GLWE cells; `GGWF N g`: `dnum·(rank+1)` well-formed cells of the GGSW's
+rank and radix.  Every `(row, col)` cell of the result is the GLWE operation applied to the
+corresponding cells, so the GLWE phase theorem holds cell by cell. -/
+
+instance (N : Nat) (g : GGSW) : Decidable (GGWF N g) := by unfold GGWF; infer_instance
+instance (g : GGSW) : Decidable (GGSmall g) := by unfold GGSmall; infer_instance
+
+/-- `ggsw_rotate(k, res, a)` (`res.dnum ≤ a.dnum`; the cells may have different limb counts) -/
+theorem ggsw_rotate_cells {N : Nat} (k : Int) {res a : GGSW} (hr : GGWF N res) (ha : GGWF N a) (sa : GGSmall a)
+    (hd : res.dnum ≤ a.dnum) (hds : res.dsize = a.dsize) (hrk : res.rank = a.rank) (hb : res.base2k = a.base2k) :
+    ∃ r', ggswRotate N k res a = .ok r' ∧ r'.cts.length = res.cts.length ∧ r'.dnum = res.dnum ∧ r'.rank = res.rank ∧
+      ∀ idx, idx < res.dnum * (res.rank + 1) → ∃ cr ca c',
+        res.cts[idx]? = some cr ∧ a.cts[idx]? = some ca ∧ glweRotate N k cr ca = .ok c' ∧ r'.cts[idx]? = some c' ∧
+        Same cr c' ∧ GWF N c' ∧ ∀ s, phase s c' = (fit N cr.size (phase s ca)).map (rotP k) :=
+  ggswRotate_cells k hr ha sa hd hds hrk hb
+
+/-- two GGSWs of rank 1: `res` one row of two-limb cells, `a` two rows of three-limb cells -/
+def exGr : GGSW := { base2k := 4, n := 2, rank := 1, dnum := 1, dsize := 1, cts := [exRes, exRes] }
+def exGa : GGSW := { base2k := 4, n := 2, rank := 1, dnum := 2, dsize := 1, cts := [exA, exA, exA, exA] }
+
+example : ∃ r', ggswRotate 2 (-5) exGr exGa = .ok r' ∧ ∀ idx, idx < 2 → ∃ c', r'.cts[idx]? = some c' ∧
+    ∀ s, phase s c' = (fit 2 2 (phase s exA)).map (rotP (-5)) := by
+  obtain ⟨r', h, _, _, _, hc⟩ := ggsw_rotate_cells (N := 2) (-5) (res := exGr) (a := exGa)
+    (by decide) (by decide) (by decide) (by decide) rfl rfl rfl
+  refine ⟨r', h, fun idx hi => ?_⟩
+  obtain ⟨cr, ca, c', g1, g2, _, g4, _, _, g7⟩ := hc idx hi
+  have : idx = 0 ∨ idx = 1 := by omega
+  rcases this with rfl | rfl <;> (simp [exGr, exGa] at g1 g2; subst g1 g2; exact ⟨c', g4, g7⟩)
+
+/-- `ggsw_rotate_assign(k, res)` -/
+theorem ggsw_rotate_assign_cells {N : Nat} (k : Int) {res : GGSW} (hr : GGWF N res) (sr : GGSmall res) :
+    ∃ r', ggswRotateAssign N k res = .ok r' ∧ r'.cts.length = res.cts.length ∧
+      ∀ idx, idx < res.dnum * (res.rank + 1) → ∃ cr c',
+        res.cts[idx]? = some cr ∧ glweRotateAssign N k cr = .ok c' ∧ r'.cts[idx]? = some c' ∧
+        Same cr c' ∧ GWF N c' ∧ ∀ s, phase s c' = (phase s cr).map (rotP k) :=
+  ggswRotateAssign_cells k hr sr
+
+example : ∃ r', ggswRotateAssign 2 7 exGa = .ok r' ∧ r'.cts.length = 4 := by
+  obtain ⟨r', h, hl, _⟩ := ggsw_rotate_assign_cells (N := 2) 7 (res := exGa) (by decide) (by decide)
+  exact ⟨r', h, hl⟩
 
 /-! ## straight-line programs
 
